@@ -115,6 +115,8 @@ def run(ctx):
   N = 1500 if thorough else 260
   for it in range(N):
     y = gen_labels(rng)
+    if it in (0, 3, 6, 9, 12, 15):
+      y = np.array([3, 3, -1, 7, 7, -1, 9])      # tiny classes: fewer pairs exist than are asked for below
     known = np.flatnonzero(y >= 0)
     kind = it % 3
     if kind == 0:
@@ -123,6 +125,8 @@ def run(ctx):
         continue
       same = bool(rng.random() < 0.5)
       n = int(rng.integers(1, 30))
+      if it in (0, 3, 6, 9, 12, 15):
+        same, n = bool(it % 2 == 0), 12
       seed = int(rng.integers(0, 2 ** 31 - 1))
       rs = LogRS(seed)
       c = Constraints(y)
@@ -138,7 +142,7 @@ def run(ctx):
       iters = iters_from_log(rs.log)
       ps = list(zip(np.asarray(a).tolist(), np.asarray(b).tolist()))
       terms.append("(c07_pairs %s %d%%nat %s %s %s %s)" % (gzlist(y), n, gbool(same), giters(iters), gpairs(ps), gbool(warned)))
-      recs.append(dict(kind='pairs', y=y, n=n, same=same, seed=seed, a=a, b=b))
+      recs.append(dict(kind='pairs', y=y, n=n, same=same, seed=seed, a=a, b=b, warned=warned))
       ctx.seen(('pairs', y.tolist(), n, same, seed), len(ps) > 0)
       # same integer seed reproduces the same constraints
       ab2 = Constraints(y)._pairs(n, same_label=same, random_state=np.random.RandomState(seed)) if False else None
@@ -254,6 +258,9 @@ def run(ctx):
     ctx.count('falsifier', 1)
     if rec['kind'] == 'pairs':
       r = pair_property(y, rec['a'], rec['b'], rec['same'], rec['n'])
+      if r is None and rec['warned'] != (len(rec['a']) < rec['n']):
+        r = ('%d of the %d requested pairs were returned and no warning was issued' % (len(rec['a']), rec['n'])) if not rec['warned'] \
+            else 'a warning was issued although the requested number of pairs was returned'
       if r is None:
         # determinism: the same integer seed reproduces the same constraints
         with warnings.catch_warnings():
